@@ -40,7 +40,8 @@ Twins == {<<r, r>> : r \in RandomSubset(12, {q \in Rules : q.uid # 0})}
          \cup {<<r, r, [r EXCEPT !.title = 3 - @, !.body = "keywords"]>> : r \in RandomSubset(8, {q \in Rules : q.uid # 0 /\ q.body = "map"})}
          \cup {<<r, r, r>> : r \in RandomSubset(4, {q \in Rules : q.uid # 0})}
 TwinCases == {[coll |-> c, V |-> SetToSeq(AllV), excl |-> <<>>] : c \in Twins}
-Cases == TwinCases \cup {[coll |-> c, V |-> SetToSeq(v), excl |-> SetToSeq(e)] : c \in Colls, v \in RandomSubset(3, VSets) \cup {AllV}, e \in RandomSubset(3, Excls) \cup {{<<"dangling_detection", 1>>, <<"duplicate_title", 1>>, <<"identifier_uniqueness", 1>>}}}
+Cases == TwinCases \cup {[coll |-> c, V |-> SetToSeq(v), excl |-> SetToSeq(e)] : c \in Colls, v \in RandomSubset(3, VSets) \cup {AllV}, e \in RandomSubset(2, Excls) \cup {{<<"dangling_detection", 1>>, <<"duplicate_title", 1>>, <<"identifier_uniqueness", 1>>},
+                                                     {<<"dangling_detection", 0>>, <<"duplicate_title", 0>>}}}   \* (always: the entry for the rules without identifier)
 ASSUME LET S == SetToSeq(Cases) IN ndJsonSerialize(IOEnv.VERIF_OUT, [i \in 1..Len(S) |-> [id |-> i] @@ S[i]])
 Init == x = 0
 Next == UNCHANGED x
